@@ -18,7 +18,7 @@ import (
 // keeps the pause for a while (no stage may take work), then either resumes (every seed must still
 // finish) or stops the crawler while it is paused (Stop must return).
 //
-// usage: zeno-verif c14 <scratch-dir> <trace> <workers> <k> <resume|stop>
+// usage: zeno-verif c14 <scratch-dir> <trace> <workers> <k> <resume|stop|diskstop>   (diskstop: paused by the disk watchdog, then stopped)
 func init() { scenarios["c14"] = c14 }
 
 func c14(args []string) error {
@@ -70,8 +70,16 @@ func c14(args []string) error {
 	case <-time.After(60 * time.Second):
 		return fmt.Errorf("the %d-th arch.take never happened", k)
 	}
-	run.tr.Emit(map[string]any{"ev": "c14.pause.call", "workers": w})
-	pause.Pause("verif")
+	run.tr.Emit(map[string]any{"ev": "c14.pause.call", "workers": w, "by": mode})
+	if mode == "diskstop" {
+		// the disk watchdog pauses on its own (5 s ticker) once the operator's threshold cannot be met
+		run.cfg.MinSpaceRequired = 1e9
+		for i := 0; i < 900 && !pause.IsPaused(); i++ {
+			time.Sleep(10 * time.Millisecond)
+		}
+	} else {
+		pause.Pause("verif")
+	}
 	run.tr.Emit(map[string]any{"ev": "c14.pause.ret", "paused": pause.IsPaused()})
 	// every worker finishes what it holds and acknowledges at its next select (bounded by the slowest item)
 	deadline := time.Now().Add(12 * time.Second)
